@@ -173,6 +173,52 @@ mod proofs {
     check_len(6);
   }
 
+  /// Fixed *layout* (where the sigils and name characters sit is concrete, so every heap
+  /// string has a concrete length), symbolic filler characters `?` over {' ', '\n', 'x'}:
+  /// what is decided is the recorded indentation of every slot and the fragment texts.
+  fn filler() -> u8 {
+    // an if-tree over constants (not `any` + `assume`): comparisons with the sigil fold
+    if kani::any() {
+      b' '
+    } else if kani::any() {
+      b'\n'
+    } else {
+      b'x'
+    }
+  }
+  fn check_layout<const N: usize>(layout: &[u8; N]) {
+    let mut buf = [0u8; N];
+    let mut i = 0;
+    while i < N {
+      buf[i] = if layout[i] == b'?' { filler() } else { layout[i] };
+      i += 1;
+    }
+    let tr = vec!["T".to_string()];
+    let mut occ = [Occ { start: 0, end: 0, name_start: 0, multi: false, indent: 0 }; 8];
+    let n = scan(&buf, b'$', &mut occ);
+    kani::cover!(n >= 1 && occ[n - 1].indent >= 2);
+    kani::cover!(n >= 1 && occ[n - 1].indent == 0);
+    kani::cover!(n >= 2 && occ[0].indent != occ[1].indent);
+    assert!(agrees(&buf, &tr));
+    std::mem::forget(tr);
+  }
+  macro_rules! layout_harness {
+    ($name:ident, $lay:expr) => {
+      #[kani::proof]
+      #[kani::unwind(14)]
+      fn $name() {
+        check_layout($lay);
+      }
+    };
+  }
+  // two slots on (possibly) different lines with different indents
+  layout_harness!(c07_template_layout_two_slots, b"??$A???$$$B");
+  // a rejected sigil (`$(`, `$a`) in the same fragment before the slot
+  layout_harness!(c07_template_layout_rejected_paren, b"$(???$F?");
+  layout_harness!(c07_template_layout_rejected_lower, b"?$a???$T$");
+  // slot first, transformed slot later, trailing lone sigils
+  layout_harness!(c07_template_layout_adjacent, b"$A$$B??$T?$$");
+
   /// the per-occurrence kernel alone: `split_first_meta_var` on every string that starts
   /// with the sigil
   #[kani::proof]
